@@ -78,4 +78,12 @@ CHECKS = {
     technique='TLC trace validation (specs/Trace_Conn.tla) of recorded executions with bursts of hundreds of tiny messages at several MTUs: size / count / length / packing clauses at every build event',
     text='Executions with bursts of 40-300 empty and 1-byte messages per tick, mixed sizes and MTUs 512/1096/1500 are recorded; Trace_Conn requires for every built datagram: at most MTU-28 bytes, count = number of messages <= 255, length field = payload area, nothing left queued that would have fitted, construction never raises, and nothing is left unsent at the end.',
     note="Trusted: TLC, the JSON bridge, the recorder (harness/connworld.py: wraps public calls from outside, decodes every datagram with its own AES-GCM), the virtual clock. Two ConnectionBase endpoints with a preset session key (the handshake is C02's); exhaustive model results hold for the small constants of each configuration (listed in evidence), the real constants (65535/32/256) are covered by recorded executions, i.e. sampled. Named deviations of KNOWN_FINDINGS.txt are admitted by the judge and reported when used."),
+ "C03": dict(
+    level="model_checking",
+    technique="TLC model checking of specs/Nonce.tla (with a control configuration that must fail) + TLC validation of every emission of the real endpoints against the premises (Trace_Nonce, Trace_Conn clauses) on histories that wrap the counter + TLC-judged grouped (key, nonce) table observed at the crypto boundary",
+    text=("The argument (rate cap + clock that does not go back => fresh (direction, second, seq)) is model-checked exhaustively on a small ring, and the control configuration in which the ring wraps "
+          "within one second must refute it. On the code, crypto.encrypt_gcm is wrapped from outside: every seal of both endpoints over histories that wrap the 16-bit counter is checked by TLC for each premise "
+          "(next seq on the ring, never 0; rate cap; time field = clock second; direction byte; exactly one seal with nonce = first 12 and AAD = all 20 header bytes; sealed under the session key as verified by the "
+          "harness's own AES-GCM; no payload bytes in clear), and the table of all (key, nonce) pairs grouped by sequence number is judged pairwise distinct."),
+    note=("Non-decreasing clock and 32-bit seconds assumed (as stated). Cryptographic strength of AES-GCM assumed. Preset session key: handshake datagrams are C02's; the quick tier wraps the counter once per direction, the thorough tier three times.")),
 }
